@@ -57,7 +57,7 @@ def gen():
         op = st.one_of(upd, upd, upd, upd, upd, pair, st.tuples(st.just("repeat"), st.integers(0, 20)), st.tuples(st.just("repeat"), st.integers(0, 20)), st.tuples(st.just("extract"), st.integers(0, 20)),
                        st.tuples(st.just("logprob"), st.integers(0, 20))).map(list)
         return {"spec": spec, "ops": draw(st.lists(op, min_size=4, max_size=12)), "pending": draw(st.booleans()), "clash": draw(st.booleans()),
-                "dep_bij": draw(st.booleans()), "alias": draw(st.integers(0, 3)) == 0, "hi": [draw(st.sampled_from([1.5, 2.5, 3.0])) for _ in range(4)]}
+                "dep_bij": draw(st.booleans()), "int_var": draw(st.booleans()), "alias": draw(st.integers(0, 3)) == 0, "hi": [draw(st.sampled_from([1.5, 2.5, 3.0])) for _ in range(4)]}
 
     return g()
 
@@ -100,6 +100,11 @@ def oracle(case):
             xb = lsl.param(np.float32(0.3), lsl.Dist(tfd.Uniform, low=np.float32(-1.0), high=hi), name="xb")
             xb.transform(None)
             gb.add(lsl.obs(np.float32(0.1), lsl.Dist(tfd.Normal, loc=xb, scale=np.float32(1.0)), name="wb"))
+        if case.get("int_var"):
+            # a variable whose current value is integer-typed although positions for it are real-valued (direct assignment keeps what it is given)
+            dose = lsl.Var(np.array([1, 2, 3], dtype=np.int32), name="dose")
+            eff = lsl.Var(lsl.Calc(lambda d: jnp.sum(jnp.asarray(d, dtype=jnp.float32)) / 4.0, dose), name="dose_effect")
+            gb.add(lsl.obs(np.float32(0.2), lsl.Dist(tfd.Normal, loc=eff, scale=np.float32(1.0)), name="wd"))
         return gb.build_model()
 
     user = build_once()
@@ -112,6 +117,7 @@ def oracle(case):
         v0.value = np.asarray(mg.values_from_z(spec, [[0.7] * len(d["z"]) for d in spec["vars"]])[0], dtype=np.float32)
     user_before = state_values(user.state)
     user_flags = {n.name: n.outdated for n in user.nodes.values()}
+    auto_before = user.auto_update
     if case.get("alias"):
         import warnings
 
@@ -120,6 +126,7 @@ def oracle(case):
             iface = lsl.GooseModel(user)          # the deprecated alias must obey the same laws
     else:
         iface = gs.LieselInterface(user)
+    require(user.auto_update == auto_before, "constructing-interface-modified-user-model:auto_update-setting", lambda: f"auto_update {auto_before} -> {user.auto_update}; {det()}")
     require(tree_equal_vals(user_before, state_values(user.state)) and user_flags == {n.name: n.outdated for n in user.nodes.values()},
             "constructing-interface-modified-user-model", lambda: f"flags before {sorted(k for k, v in user_flags.items() if v)} "
             f"after {sorted(n.name for n in user.nodes.values() if n.outdated)}; {det()}")
@@ -154,6 +161,8 @@ def oracle(case):
             if k % 2 == 0:
                 pos["hi"] = jnp.float32(case["hi"][k])
             pos["xb_transformed"] = jnp.float32(zs[0][1])
+        if case.get("int_var") and int(abs(zs[0][0]) * 100) % 3 != 0:
+            pos["dose"] = jnp.asarray(np.array([0.5, 1.5, 2.5], dtype=np.float32) + np.float32(zs[0][0]))
         return pos
 
     def run_update(pos, sidx, mode, tag):
@@ -183,8 +192,8 @@ def oracle(case):
         # non-mutation of the input state and of the user's model
         require(tree_equal_vals(snap, state_values(state)) and leaves_before == [id(x) for x in jax.tree_util.tree_leaves(state)],
                 tag + "input-state-modified", det)
-        require(tree_equal_vals(user_before, state_values(user.state)) and user_flags == {n.name: n.outdated for n in user.nodes.values()},
-                tag + "user-model-modified", det)
+        require(tree_equal_vals(user_before, state_values(user.state)) and user_flags == {n.name: n.outdated for n in user.nodes.values()}
+                and user.auto_update == auto_before, tag + "user-model-modified", det)
         for p, s_in, o in outs:
             if any(not in_support(spec, p, user) for _ in [0]):
                 continue
